@@ -25,6 +25,8 @@ RULE = ('Model sizes are enumerated over everything that fits (co_oxidation orde
         'the QFT groups, Kronecker/energy formulas for exciton chain and Ising, ODE right-hand sides for FPU/Kuramoto, '
         'digit-wise products for the fractals. Non-trivial: a size other than the one used in tests/test_models.py or a '
         'non-default option (cyclic=False).')
+RULE += (' ' + 'Added classes: Kuramoto frequencies of mixed magnitude (1e9 ... 1e13 next to O(1), every equation judged on its own scale), fractals requested again after the caller rescaled earlier results in place.')
+
 ASSUMPTIONS = [
     'oracle: defining formulas from the model docstrings/papers evaluated with NumPy; harness-side TT arithmetic in vt/dense.py',
     'sizes are bounded by what can be matricised (<= 4096 states dense), larger ones are checked through TT-form identities',
@@ -319,6 +321,10 @@ def body_physics(case):
         if case['seed'] % 3 == 0:
             w = np.rint(w).astype(np.int64)            # integer-typed natural frequencies
             lab.add('int_parameter')
+        elif case['seed'] % 3 == 1:
+            # natural frequencies of very different magnitude within one system (a fast rotor next to slow ones, other units)
+            w = w * 10.0 ** rng.choice([0, 0, 9, 12, 13], size=d)
+            lab.add('frequencies_of_mixed_magnitude')
         t = mdl.kuramoto_coefficients(d, w.copy())
         require_consistent(t, 'consistent')
         require(t.order == 3 and t.row_dims == [d + 1, d + 1, d] and t.col_dims == [1, 1, 1], 'dims', 'dims of kuramoto_coefficients')
@@ -328,7 +334,9 @@ def body_physics(case):
         p2 = np.concatenate([[1.0], np.cos(th)])
         val = np.einsum('a,b,abk->k', p1, p2, xi)
         rhs = np.array([w[i] + (2.0 / d) * np.sum(np.sin(th - th[i])) + 0.2 * np.sin(th[i]) for i in range(d)])
-        close(val, rhs, 1e-12, 10.0, 'kuramoto_rhs', 'Kuramoto right-hand side at a random state')
+        for i in range(d):
+            # every equation relative to its own terms (the equations do not mix: a large frequency elsewhere is no excuse)
+            close(val[i:i + 1], rhs[i:i + 1], 1e-12, max(10.0, abs(float(w[i]))), 'kuramoto_rhs', 'Kuramoto right-hand side of oscillator %d at a random state' % i)
         lab.add('other_size')
         lab.add('random_frequencies')
     return lab
@@ -420,6 +428,17 @@ def body_fractal(case):
             g = (mid >= dim - 1)
         want = want * g
     require(np.array_equal(np.asarray(f), want), 'fractal_value', '%s(%d,%d) differs from the digit-wise definition' % (model, dim, level))
+    if case['seed'] % 2 == 0:
+        # the caller owns what it was given: earlier results (the generator itself, level 1, and the picture just made) are rescaled
+        # in place, as a plotting loop does, and the same fractal is asked for again
+        g1 = getattr(mdl, model)(dim, 1)
+        for arr in (g1, f):
+            if isinstance(arr, np.ndarray) and arr.flags.writeable:
+                arr *= 255
+        f2 = getattr(mdl, model)(dim, level)
+        require(isinstance(f2, np.ndarray) and f2.shape == want.shape and np.array_equal(np.asarray(f2), want), 'fractal_value',
+                '%s(%d,%d) asked for again after earlier results were rescaled in place by the caller' % (model, dim, level))
+        lab.add('earlier_results_modified_by_caller')
     lab.add('dim%d' % dim)
     lab.add('other_size')
     return lab
